@@ -1,6 +1,147 @@
 import Driver.JsonIO
+import RulioModel.Watchdog
+import RulioModel.ScriptTpl
 open Lean
 
-/-- model-side handler for cases whose "kind" starts with "c14." (stub until the property's slice lands) -/
+/-! model-side handler for the C14 correspondence (kinds `c14.*`) -/
+
+namespace C14Drv
+open ScriptTpl Watchdog
+
+def opOf : String → Option Op
+  | "+" => some .add | "-" => some .sub | "*" => some .mul
+  | "<" => some .lt | "<=" => some .le | ">" => some .gt | ">=" => some .ge
+  | "===" => some .eq | "!==" => some .ne | "&&" => some .and | "||" => some .or
+  | _ => none
+
+partial def exOf (j : Json) : Except String Ex := do
+  if jhas j "op" then
+    match opOf (jstr j "op") with
+    | none => throw ("bad op " ++ jstr j "op")
+    | some op => do
+      let a ← exOf (jget j "l"); let b ← exOf (jget j "r")
+      pure (.bin op a b)
+  else if jhas j "n" then
+    match (jget j "n").getInt? with
+    | .ok n => pure (.num n)
+    | .error _ => throw "bad n"
+  else if jhas j "s" then pure (.str (jstr j "s"))
+  else if jhas j "bool" then pure (.bool (jbool j "bool"))
+  else if jhas j "null" then pure .null
+  else if jhas j "v" then pure (.var (jstr j "v"))
+  else if jhas j "typeof" then pure (.typeOf (jstr j "typeof"))
+  else if jhas j "op" then
+    match opOf (jstr j "op") with
+    | none => throw ("bad op " ++ jstr j "op")
+    | some op => do
+      let a ← exOf (jget j "l"); let b ← exOf (jget j "r")
+      pure (.bin op a b)
+  else if jhas j "not" then do
+    let a ← exOf (jget j "not"); pure (.not a)
+  else if jhas j "obj" then do
+    let kvs ← (jarr j "obj").mapM (fun kv => do
+      match kv with
+      | .arr #[k, e] => do
+        let e' ← exOf e
+        pure ((k.getStr?).toOption.getD "", e')
+      | _ => throw "bad obj entry")
+    pure (.obj kvs)
+  else if jhas j "arr" then do
+    let xs ← (jarr j "arr").mapM exOf
+    pure (.arr xs)
+  else throw "bad expression"
+
+def natOf (j : Json) (k : String) : Nat := (jint j k).toNat
+
+def tplOf (j : Json) : Except String Tpl := do
+  match jstr j "t" with
+  | "exprs" => do
+    let pre ← (jarr j "pre").mapM exOf
+    let last ← exOf (jget j "last")
+    pure (.exprs pre last)
+  | "echo" => pure .echo
+  | "throw" => do let e ← exOf (jget j "e"); pure (.throwE e)
+  | "syntax" => pure .syntaxErr
+  | "loop" => pure .loop
+  | "busy" => do let e ← exOf (jget j "last"); pure (.busy (natOf j "n") e)
+  | "sleepThen" => do let e ← exOf (jget j "last"); pure (.sleepThen (natOf j "ms") e)
+  | "sleepLast" => pure (.sleepLast (natOf j "ms"))
+  | t => throw ("bad template " ++ t)
+
+def bsOf (j : Json) : Except String Bs := do
+  match ← J.ofJson j with
+  | .obj kvs => pure kvs
+  | .null => pure []
+  | _ => throw "bindings must be an object"
+
+def errName : RErr → String
+  | .syntax => "syntax" | .thrown => "thrown" | .timeout => "timeout"
+
+def outcomeName : Outcome J → String
+  | .returned (.ok (some _)) => "value"
+  | .returned (.ok none) => "nil"
+  | .returned (.error e) => "error:" ++ errName e
+  | .panicked => "panicked"
+  | .blocked => "blocked"
+  | .running => "running"
+
+def tcOf (j : Json) : TimeoutCfg :=
+  { timeoutsOn := jbool j "on", hasLoc := jbool j "hasLoc", control := jint j "control", sysDefault := jint j "sysDefault" }
+
+def optInt : Option Int → Json
+  | some n => Json.num (JsonNumber.fromInt n)
+  | none => Json.null
+
+def doChoose (c : Json) : Json :=
+  Json.mkObj [("timeout", optInt (chooseTimeout (tcOf (jget c "tc"))))]
+
+def doStrip (c : Json) : Json :=
+  match bsOf (jget c "bs") with
+  | .error e => Json.mkObj [("err", Json.str ("input:" ++ e))]
+  | .ok bs => Json.mkObj [("stripped", bsToJson (stripQ bs)), ("collides", Json.bool (stripCollides bs))]
+
+/-- one run: template + the bindings the caller passes + timeout settings + designed duration -/
+def doRun (c : Json) : Json :=
+  match (do
+    let tpl ← tplOf (jget c "tpl")
+    let bs ← bsOf (jget c "bs")
+    pure (tpl, bs) : Except String (Tpl × Bs)) with
+  | .error e => Json.mkObj [("err", Json.str ("input:" ++ e))]
+  | .ok (tpl, bs) =>
+    let strip := jbool c "strip"
+    let env := if strip then stripQ bs else bs
+    let collides := strip && stripCollides bs
+    let timeout := chooseTimeout (tcOf (jget c "tc"))
+    let dur := jint c "dur_ms"          -- designed natural duration; negative: never ends
+    let fires := match timeout with
+      | none => false
+      | some t => dur < 0 || dur * 1000000 > t
+    let pre := natOf c "pre"
+    match behaviour env tpl with
+    | none => Json.mkObj [("unsupported", Json.bool true), ("timeout", optInt timeout)]
+    | some sc =>
+      let en := timeout.isSome
+      let coded := callScript sc en fires false false pre
+      let fixed := callScript sc en fires true true pre
+      let half := callScript sc en fires true false pre
+      let scName := match sc with
+        | .value _ _ => "value" | .throws _ => "throws" | .loops => "loops" | .syntaxError => "syntax"
+      let valueFields : List (String × Json) := match sc with
+        | .value _ v => [("value", J.toJson v),
+                         ("cond_bss", Json.arr ((condBindings bs (some v)).map bsToJson).toArray)]
+        | _ => []
+      Json.mkObj ([("timeout", optInt timeout), ("enabled", Json.bool en), ("fires", Json.bool fires),
+        ("script", Json.str scName), ("collides", Json.bool collides),
+        ("pred_coded", Json.str (outcomeName coded)), ("pred_fixed", Json.str (outcomeName fixed)),
+        ("pred_half", Json.str (outcomeName half)),
+        ("env", bsToJson env)] ++ valueFields)
+
+end C14Drv
+
+/-- model-side handler for cases whose "kind" starts with "c14." -/
 def handleC14 (kind : String) (c : Json) : Json :=
-  Json.mkObj [("err", Json.str ("unknown kind " ++ kind))]
+  match kind with
+  | "c14.run" => C14Drv.doRun c
+  | "c14.strip" => C14Drv.doStrip c
+  | "c14.choose" => C14Drv.doChoose c
+  | _ => Json.mkObj [("err", Json.str ("unknown kind " ++ kind))]
